@@ -3,11 +3,21 @@
 package k8s
 
 import (
+	"context"
+	"errors"
+
+	apierrors "k8s.io/apimachinery/pkg/api/errors"
+	"k8s.io/apimachinery/pkg/runtime"
+	"k8s.io/apimachinery/pkg/runtime/schema"
+	"k8s.io/client-go/tools/record"
+	"sigs.k8s.io/controller-runtime/pkg/client"
+
 	corev1 "k8s.io/api/core/v1"
 	metav1 "k8s.io/apimachinery/pkg/apis/meta/v1"
 	"k8s.io/apimachinery/pkg/util/sets"
 
 	zz "github.com/AliyunContainerService/terway/internal/zzverif"
+	"github.com/AliyunContainerService/terway/pkg/tracing"
 	"github.com/AliyunContainerService/terway/types"
 	"github.com/AliyunContainerService/terway/types/daemon"
 )
@@ -80,6 +90,30 @@ func ZZ_C15_bandwidth_units() {
 	zz.Assert(err2 != nil, "an unknown unit is rejected with an error")
 }
 
+type zzEventClient struct {
+	client.Client
+	outcome int // 0 found, 1 not found, 2 other error
+}
+
+func (c *zzEventClient) Get(ctx context.Context, key client.ObjectKey, obj client.Object, opts ...client.GetOption) error {
+	switch c.outcome {
+	case 1:
+		return apierrors.NewNotFound(schema.GroupResource{Resource: "pods"}, key.Name)
+	case 2:
+		return errors.New("api server error")
+	}
+	p := obj.(*corev1.Pod)
+	p.Name, p.Namespace, p.UID = key.Name, key.Namespace, "u"
+	return nil
+}
+
+type zzRecorder struct {
+	record.EventRecorder
+	n int
+}
+
+func (r *zzRecorder) Event(object runtime.Object, eventtype, reason, message string) { r.n++ }
+
 // C15: pod -> PodInfo conversion (run on every RPC) never panics, whatever
 // the user-writable annotations contain.
 func ZZ_C15_convertPod_nopanic() {
@@ -119,4 +153,39 @@ func ZZ_C15_convertPod_nopanic() {
 	pi := convertPod(mode, zz.Bool("erdma"), sets.New[string]("statefulset"), pod)
 	zz.Assert(pi != nil, "conversion always yields a PodInfo")
 	zz.Assert(zz.Implies(pi.NetworkPriority != "", zz.Or(pi.NetworkPriority == "best-effort", pi.NetworkPriority == "burstable", pi.NetworkPriority == "guaranteed")), "only well-formed priorities are taken over")
+}
+
+// C15: a malformed value is ignored and reported as a pod event through the
+// registered recorder - the daemon's own (*k8s).RecordPodEvent, whose cached
+// pod lookup may succeed, miss (stale cache, pod just created or just
+// deleted) or fail.  Whatever the lookup answers, the conversion does not
+// panic and ignores the value; an event is emitted only for a pod that was
+// found.
+func ZZ_C15_convertPod_event_path() {
+	rec := &zzRecorder{}
+	kc := &k8s{client: &zzEventClient{outcome: zz.Fork("event.lookup", 3)}, recorder: rec}
+	// natively the recorder is registered as the daemon does at start-up; under the engine
+	// (pkg/tracing is stubbed out) the same routing is installed as an override
+	tracing.RegisterEventRecorder(nil, kc.RecordPodEvent)
+	zz.Override("github.com/AliyunContainerService/terway/pkg/tracing.RecordPodEvent", func(podName, podNamespace, eventType, reason, message string) error {
+		return kc.RecordPodEvent(podName, podNamespace, eventType, reason, message)
+	})
+	ann := map[string]string{}
+	site := zz.Fork("malformed.annotation", 4)
+	switch site {
+	case 0:
+		ann[podIngressBandwidth] = zz.OneOf("value", "abc", "M", "1x", "  ")
+	case 1:
+		ann[podEgressBandwidth] = zz.OneOf("value", "abc", "M", "1x", "  ")
+	case 2:
+		ann[types.PodENI] = zz.OneOf("value", "abc", "yes", "", "  ")
+	case 3:
+		ann[types.NetworkPriority] = zz.OneOf("value", "abc", "high", "", "  ")
+	}
+	pod := &corev1.Pod{ObjectMeta: metav1.ObjectMeta{Name: "p", Namespace: "ns", UID: "u", Annotations: ann}}
+	pi := convertPod(daemon.ModeENIMultiIP, false, sets.New[string]("statefulset"), pod)
+	zz.Assert(pi != nil && pi.TcIngress == 0 && pi.TcEgress == 0 && !pi.PodENI && pi.NetworkPriority == "", "a malformed value is ignored")
+	if zz.IsEngine() {
+		zz.Assert(rec.n == 1 == (kc.client.(*zzEventClient).outcome == 0), "the parse failure is reported as an event exactly when the pod could be looked up")
+	}
 }
